@@ -64,6 +64,10 @@ def shards(tier):
         # drivers assigned after a first getSimulator() (the simulator is then re-obtained)
         out.append({'block': b, 'place': 'parent', 'en': 'input', 'domains': 1, 'late': 1})
         out.append({'block': b, 'place': 'grand', 'en': 'self', 'domains': 1, 'late': 1})
+        # the driver is in place (free running) when the simulator is created; its enable is attached afterwards and the SAME
+        # simulator object keeps being clocked
+        out.append({'block': b, 'place': 'parent', 'en': 'input', 'domains': 1, 'swap': 1})
+        out.append({'block': b, 'place': 'self', 'en': 'other', 'domains': 1, 'swap': 1})
         if tier == 'thorough' and b in BLOCKS:
             # three domains only for the small blocks (the product of three copies of the larger ones takes over 30 min)
             out.append({'block': b, 'place': 'parent', 'en': 'input', 'domains': 3})
@@ -176,7 +180,10 @@ def build(d, gated):
             free.append(x)
             holder = hw if k == 0 else c.prev_g1
             py4hw.Reg(holder, tag + '_enreg', x, en)
-        if d.get('nobase'):
+        if d.get('swap'):
+            drv = py4hw.ClockDriver(tag + '_clk', base=hw.clockDriver)
+            c.swap = getattr(c, 'swap', []) + [(drv, en)]
+        elif d.get('nobase'):
             # a stand-alone gated driver: enable= given, no base= (its own root clock)
             drv = py4hw.ClockDriver(tag + '_clk', 25E6, enable=en)
         else:
@@ -218,6 +225,9 @@ def build(d, gated):
         for target, drv in c.late:
             target.clockDriver = drv
         c.sim = hw.getSimulator()
+    if gated and d.get('swap'):
+        for drv, en in c.swap:
+            drv.enable = en
     c.st = core.SysState(hw, free=free)
     return c
 
